@@ -195,6 +195,38 @@ Definition ex_lit (v : value) : ac_res json :=
 
 Definition ex_value_is_null (v : value) : bool := match v with VNull => true | _ => false end.
 
+(* argument_value_to_json: graphql_value_to_json for a value written in a field argument; variables, at any depth
+   of a list or object literal, are replaced by their coerced value (null when there is none) *)
+Fixpoint ex_arglit_json (vars : jmap) (v : value) : cv_res json :=
+  match v with
+  | VVar name => CvOk (match jmap_get name vars with Some x => x | None => JNull end)
+  | VList l =>
+      cv_bind ((fix go (l : list value) : cv_res (list json) :=
+                  match l with
+                  | [] => CvOk []
+                  | x :: r => cv_bind (ex_arglit_json vars x) (fun y => cv_bind (go r) (fun ys => CvOk (y :: ys)))
+                  end) l)
+              (fun js => CvOk (JArr js))
+  | VObject fs =>
+      cv_bind ((fix go (l : list (str * value)) : cv_res (list (str * json)) :=
+                  match l with
+                  | [] => CvOk []
+                  | (k, x) :: r =>
+                      cv_bind (ex_arglit_json vars x) (fun y => cv_bind (go r) (fun ys => CvOk ((k, y) :: ys)))
+                  end) fs)
+              (fun kvs => CvOk (JObj (jmap_of_list kvs)))
+  | _ => cv_lit_to_json v
+  end.
+
+(* argument_value_to_json(...).map_err(|err| push err.into_field_error) *)
+Definition ex_arglit (vars : jmap) (v : value) : ac_res json :=
+  match ex_arglit_json vars v with
+  | CvOk j => AcOk j
+  | CvErr CvValueError => AcErr EcArg
+  | CvErr CvValidationBug => AcErr EcBug
+  | CvOutOfFuel => AcFuel
+  end.
+
 (* `object.iter().collect::<HashMap<_,_>>().get(name)`: the last occurrence wins *)
 Fixpoint ex_obj_get (n : str) (fs : list (str * value)) : option value :=
   match fs with
@@ -254,7 +286,7 @@ Fixpoint ex_arg_value (fuel : nat) (s : schema) (vars : jmap) (t : ty) (v : valu
                             (fun o => AcOk (JObj o))
                     | _ => AcErr EcArg
                     end
-                | Some _ => ex_lit v
+                | Some _ => ex_arglit vars v
                 end
             end
         end
@@ -421,7 +453,9 @@ with ex_field (fuel : nat) (cx : ectx) (rpath : list pseg) (otn : str) (oimpls :
                 (fun _ => eret (if is_non_null (fd_ty fdef) then XrNull else XrOk (Some JNull)))
       | AcOk args =>
           let name := rs_name f0 in
-          let complete (r : resolved) := ex_complete fuel cx rpath (rs_dty f0) r f0 rest in
+          (* complete_value(ctx, path, mode, &field_def.ty, resolved, fields): the type of the field on the concrete
+             object type (before the repair: field.ty() = rs_dty f0, the type on the selection set's parent type) *)
+          let complete (r : resolved) := ex_complete fuel cx rpath (fd_ty fdef) r f0 rest in
           ebind
             (if streq name td_typename then complete (RvLeaf (JStr otn))
              else if (streq name td_schema || streq name td_type) && td_is_query_root (ex_schema cx) otn
